@@ -14,7 +14,7 @@ def base_local(du, op_or_place, max_hops=12):
     if place is None: return None
     l = place.l
     for _ in range(max_hops):
-        ds = du.defs.get(l, [])
+        ds = du.value_defs(l)
         if len(ds) != 1 or ds[0][0] != "stmt": return l
         s = ds[0][1]
         if s.kind != "assign": return l
